@@ -34,7 +34,7 @@ fn main() {
     ctx.run_slice(Slice::new(format!("subgraphs-of-structured-hosts[sizes 1..{}: {} hosts]", kq, st.len()), st.len() as u64, |i, loc| check_subgraphs::<B>(&st[i as usize].1, loc)).heavy());
     // large hosts (sizes 33 .. 129): a fixed menu of sub-hypergraphs (halves, alternating, all but one, ...)
     let sizes: Vec<usize> = if quick { vec![33, 65] } else { vec![33, 64, 65, 129] };
-    let big = ohmc::props::structured::shapes_at(&sizes, false);
+    let big = ohmc::props::structured::shapes_at_labelled(&sizes, false);
     ctx.run_slice(Slice::new(format!("selected-subgraphs-of-large-hosts[sizes {:?}: {} hosts x 32 inclusions]", sizes, big.len()), big.len() as u64, |i, loc| check_selected_subgraphs::<B>(&big[i as usize].1, loc)).heavy());
     let s3 = Spec { e_min: 3, ..Spec::hyper(3, 3, 1, 1, 1) };
     let u3 = s3.universe();
